@@ -64,6 +64,8 @@ HELPERS = {
     "ed448": HSpec("bytes", ["P0", "P1", "B"], 3, flag="isneu", final="has_low_order", cof=4, c_bits=232,
                    c_bound=1 << 224),
 }
+# wrappers over another group's helper: name -> (inner module, factor applied to s)
+WRAPPERS = {"ristretto255": ("ed25519", 1), "decaf448": ("ed448", 2)}
 # helpers that call the two-scalar routine directly (no split): decided by `run_direct`
 DIRECT = {"secp256k1": "set_mul_add_mulgen_vartime"}
 HELPERS["secp256k1"] = HSpec("direct", [], 0)
@@ -575,6 +577,16 @@ class HelperInterp(AlgoInterp):
             b = z3.Bool("nt%d" % len(self.ntests))
             self.ntests[b] = (m, a, list(self.path))
             return SymV(z3.If(b, z3.BitVecVal(-1, 32), z3.BitVecVal(0, 32)), 32, False, None, z3.Not(b))
+        if self.mode == "wrap" and cal.trait is None and cal.self_short == self.cfg.point and \
+                m == "verify_helper_vartime" and len(args) == 4:
+            # the inner group's helper (its own obligations): an opaque Boolean of its arguments
+            self.count(m)
+            sv, kv = args[2].get(), args[3].get()
+            if not (isinstance(sv, ScalV) and isinstance(kv, ScalV)):
+                raise NotAbstractable("inner helper called with %r, %r" % (sv, kv))
+            b = z3.Bool("inner%d" % len(self.direct_calls))
+            self.direct_calls.append((b, self.as_lin(args[0]), self.as_lin(args[1]), sv.p, kv.p))
+            return SymB(b)
         if self.mode == "direct" and cal.trait is None and cal.self_short == self.cfg.point:
             if m == DIRECT.get(self.curve) and len(args) == 3:
                 # contract of the two-scalar routine (its own C10 obligation): self := u*self + v*G
@@ -1009,6 +1021,14 @@ def scalars_from_models(curve, order, models, limit=40):
         ks = []
         if "k" in vals and what in ("panic", "k*C1 != C0 (mod n)", "C1 = 0 (mod n): the test would accept everything"):
             ks.append(vals["k"] % order)
+            if hs.corr and "A" in vals and "Bt" in vals:
+                # the integer queries use the contract as a rewrite rule only: build scalars that do have the
+                # model's corrections, k = (c0 + A 2^128)/(c1 + Bt 2^128) for a few small pairs
+                for c0s, c1s in ((0, 1), (1, 1), (-1, 3), (5, -3), (-7, -5), ((1 << 64) + 1, 3), (3, -(1 << 64) - 1)):
+                    den = c1s + vals["Bt"] * T128
+                    iv = _inv_mod(den, order) if den else None
+                    if iv is not None:
+                        ks.append((c0s + vals["A"] * T128) * iv % order)
         if "c0" in vals and "c1" in vals:
             corr = (-1, 0, 1) if hs.corr else (0,)
             for A in corr:
@@ -1032,17 +1052,19 @@ def native_helper_check(K4, models_mod, rp, curve, order, rng, ks, count):
     if B is None:
         return 0, None, "cannot read the base point"
     SL, EL = K4.SCALAR_LEN[curve], K4.ENC[curve]
+    wrapper = curve in WRAPPERS         # quotient groups: operands are multiples of the generator, no torsion cases
+    cof = 1 if wrapper else HELPERS[curve].cof
     special = [0, 1, order - 1, 2, (order - 1) // 2, (1 << 128) % order, _inv_mod(1 << 128, order)]
     cases = [("solver model: " + w, k) for w, k in ks]
     cases += [("special", k) for k in special]
     cases += [("random", rng.randrange(order)) for _ in range(max(0, count - len(special)))]
     lines, exps = [], []
     for what, k in cases:
-        Qp = m.c_rand(rng)
+        Qp = K4.c_mul(m, rng.randrange(1, order), B) if wrapper else m.c_rand(rng)
         s = rng.randrange(order)
         Rt = m.c_add(K4.c_mul(m, s, B), m.c_neg(K4.c_mul(m, k, Qp)))
         variants = [(True, Rt), (False, m.c_add(Rt, B))]
-        if HELPERS[curve].cof > 1 and what != "random":
+        if cof > 1 and what != "random":
             # equations that hold only up to the cofactor
             for _, t in m.c_special()[1:]:
                 variants.append((True, m.c_add(Rt, t)))
@@ -1586,6 +1608,49 @@ def run_direct(mir, cfg, curve, order):
     return res
 
 
+def run_wrapper(mir, cfg, name, order):
+    """ristretto255 / decaf448: the helper delegates to the Edwards point's helper on the inner points, with s
+    (decaf448: 2*s, its generator is twice the Edwards generator: ground fact of C04) and k unchanged"""
+    t0 = time.time()
+    base, factor = WRAPPERS[name]
+    it = HelperInterp(mir, cfg, base, order, "wrap")
+    n = order
+    w = lambda g: Agg("struct", [it.wrap(Lin.gen(g))], name + "::Point")
+    args = [w("Q"), Ref(Cell(w("R"))), Ref(Cell(ScalV(SPoly.var(n, "s")))), Ref(Cell(ScalV(SPoly.var(n, "k"))))]
+    rets = []
+    it.run_forking(it.find_fn(name, "Point", "verify_helper_vartime"), args,
+                   lambda f, rv: rets.append((list(it.path), rv)))
+    res = {"fails": [], "unknown": [], "queries": 0, "secs": 0.0, "ops": dict(it.ops),
+           "fns": sorted(nm for nm in it.executed if "::<impl" in nm), "paths": len(rets)}
+    if len(rets) != 1 or len(it.direct_calls) != 1:
+        res["fails"].append("unexpected shape: %d paths, %d calls of the inner helper" % (len(rets), len(it.direct_calls)))
+        return res
+    path, rv = rets[0]
+    b, q_, r_, sp, kp = it.direct_calls[0]
+
+    def is_gen(L_, g):
+        nz = {kk: vv for kk, vv in L_.c.items() if not (isinstance(vv, int) and vv == 0)}
+        return nz == {(g, 0): 1}
+    if not (is_gen(q_, "Q") and is_gen(r_, "R")):
+        res["fails"].append("the inner helper does not receive (Q, R)")
+    if not (sp - SPoly.var(n, "s") * factor).iszero():
+        res["fails"].append("the inner helper receives s' = %r, expected %d*s" % (sp, factor))
+    if not (kp - SPoly.var(n, "k")).iszero():
+        res["fails"].append("the inner helper receives k' = %r, expected k" % (kp,))
+    if not isinstance(rv, SymB):
+        res["fails"].append("the result is not the inner helper's Boolean")
+    else:
+        st, secs, mdl = decide(path, rv.e == b, Z3_TIMEOUT_MS)
+        res["queries"] += 1
+        res["secs"] += secs
+        if st == "sat":
+            res["fails"].append("the result is not the inner helper's Boolean")
+        elif st != "unsat":
+            res["unknown"].append("result query: " + st)
+    res["wall"] = time.time() - t0
+    return res
+
+
 # --------------------------------------------------------------------------
 # wiring for props/C10.py
 
@@ -1627,6 +1692,19 @@ def plan(mir, cfgfn, order_of, tier, curve_sel, Obligation, parts=("glue", "loop
         obs.append(o)
         meta.append((kind, o, [len(tasks)], c))
         tasks.append((kind, c))
+    for wn, (base, factor) in WRAPPERS.items():
+        if base not in glue_curves or (curve_sel and wn not in curve_sel and base not in curve_sel):
+            continue
+        o = Obligation("%s.verify_helper_vartime:glue" % wn, "P", [], "all k, s, Q, R",
+                       "the wrapper executed from MIR with %s::Point::verify_helper_vartime as an opaque Boolean: the "
+                       "result is that Boolean on the inner points with s' = %s and k' = k%s"
+                       % (base, "s" if factor == 1 else "%d*s" % factor,
+                          "" if factor == 1 else " (this group's generator is twice the Edwards generator: C04 ground fact)"))
+        o.hint = dict(curve=wn, func="verify_helper_vartime", helper="hwrap")
+        o.candidate = False
+        obs.append(o)
+        meta.append(("hwrap", o, [len(tasks)], wn))
+        tasks.append(("hwrap", wn))
     if "p256" in glue_curves:
         o = Obligation("p256.recode_u129_NAF:high-word", "P", [], "all (nh, nl)",
                        "the recoder reads `nh` once, as `(nh as u128) << 127`: at the head of its loop the state is the "
@@ -1695,6 +1773,10 @@ def work(mir, cfgfn, order_of, task, timeout_ms):
         if kind == "hdirect":
             c = task[1]
             return run_direct(mir, cfgfn(c), c, order_of(c))
+        if kind == "hwrap":
+            c = task[1]
+            base = WRAPPERS[c][0]
+            return run_wrapper(mir, cfgfn(base), c, order_of(base))
         if kind == "hlemma":
             if task[1] == "highword":
                 return highword_lemma(mir)
@@ -1762,7 +1844,7 @@ def collect(meta, tasks, res, z3_version):
             fns |= set(v.get("fns") or [])
         o.functions = sorted(fns)
         o.models = [m for v in vals for m in v.get("models", [])]
-        if kind in ("hglue", "hdirect"):
+        if kind in ("hglue", "hdirect", "hwrap"):
             v = vals[0] if vals else {}
             solver = "%s (unsat on %d queries over %d paths)" % (z3_version, q, v.get("paths", 0))
             if vals and not fails and not unk:
@@ -1814,14 +1896,14 @@ def native(K4, models_mod, rp, obs, order_of, rng):
     by_curve = {}
     for o in obs:
         h = getattr(o, "hint", {})
-        if h.get("helper") in ("hglue", "hdirect", "hloop"):
+        if h.get("helper") in ("hglue", "hdirect", "hloop", "hwrap"):
             by_curve.setdefault(h["curve"], []).append(o)
     for c, lst in by_curve.items():
-        order = order_of(c)
+        order = order_of(WRAPPERS[c][0] if c in WRAPPERS else c)
         cand = [o for o in lst if o.verdict != "discharged"]
         ks = []
         for o in lst:
-            if getattr(o, "candidate", False) and getattr(o, "models", None):
+            if getattr(o, "candidate", False) and getattr(o, "models", None) and c in HELPERS:
                 ks += scalars_from_models(c, order, o.models)
         try:
             n, mism, err = native_helper_check(K4, models_mod, rp, c, order, rng, ks, 24 if cand else 10)
@@ -1829,7 +1911,7 @@ def native(K4, models_mod, rp, obs, order_of, rng):
             n, mism, err = 0, None, "native check error: %s" % e
         cnt["checked"] += n
         try:
-            n2, mism2, err2 = native_low_order_check(K4, models_mod, rp, c, rng)
+            n2, mism2, err2 = (0, None, None) if c in WRAPPERS else native_low_order_check(K4, models_mod, rp, c, rng)
         except Exception as e:  # noqa
             n2, mism2, err2 = 0, None, "native check error: %s" % e
         cnt["low_order_checked"] += n2
